@@ -3,6 +3,7 @@
 #include "ccl/rslang/SyntaxTree.h"
 
 #include <unordered_map>
+#include <unordered_set>
 
 namespace ccl::rslang {
 //! Converter for AST into standard form
@@ -16,6 +17,7 @@ private:
   SyntaxTreeContext termFuncs;
 
   TupleSubstitutes tupleSubstitutes{};
+  std::unordered_set<std::string> usedTupleNames{};
   NodeSubstitutes nodeSubstitutes{};
   NameSubstitutes nameSubstitutes{};
   uint32_t localVarBase{ 0 };
